@@ -6,6 +6,7 @@ package main
 // the parameter types; it knows nothing about wire layouts or expected values.
 
 import (
+	"bytes"
 	"encoding/binary"
 	"fmt"
 	"net"
@@ -145,6 +146,8 @@ func (a *rwAdapter) Len() uint16 {
 
 type interp struct {
 	objs map[string]reflect.Value
+	// every byte string an encoder handed out, with a private copy taken at that moment: compared again at the end of the scenario
+	handed [][2][]byte
 }
 
 func newInterp() *interp { return &interp{objs: map[string]reflect.Value{}} }
@@ -368,6 +371,7 @@ func (ip *interp) observe(kind, name string) J {
 		case "marshal":
 			b, err := m.MarshalBinary()
 			r["bytes"] = byteList(b)
+			ip.handed = append(ip.handed, [2][]byte{b, append([]byte(nil), b...)})
 			if err != nil {
 				r["err"] = true
 			}
@@ -415,6 +419,15 @@ func runBuild(sc J) J {
 		}
 	}
 	obs["results"] = results
+	// an encoding that was handed out belongs to the caller: later size queries and encodings (of this or any other value) must not
+	// change it (an encoder that recycles its output buffer would)
+	clobbered := []int{}
+	for i, h := range ip.handed {
+		if !bytes.Equal(h[0], h[1]) {
+			clobbered = append(clobbered, i+1)
+		}
+	}
+	obs["clobbered"] = clobbered
 	if kids, ok := sc["kids"].(map[string]interface{}); ok {
 		kb := J{}
 		for parent, list := range kids {
